@@ -947,9 +947,13 @@ namespace bloch::runtime {
         for (size_t i = 0; i < params.size(); ++i) {
             if (i)
                 oss << ",";
-            if (!params[i].className.empty())
+            if (!params[i].className.empty()) {
                 oss << params[i].className;
-            else {
+                // an array of objects carries the element class: 'p(A)' and 'p(A[])' are two
+                // methods, not one
+                if (params[i].kind == Value::Type::ObjectArray)
+                    oss << "[]";
+            } else {
                 switch (params[i].kind) {
                     case Value::Type::Int:
                         oss << "int";
@@ -1080,10 +1084,21 @@ namespace bloch::runtime {
             case Value::Type::ObjectArray:
                 if (actual.type != Value::Type::ObjectArray)
                     return std::nullopt;
-                if (expected.className.empty())
+                // an array built from a literal carries no class stamp: the analyser has checked
+                // its elements against the declared element class
+                if (expected.className.empty() || actual.className.empty())
                     return 0;
-                return actual.className == expected.className ? std::optional<int>(0)
-                                                              : std::nullopt;
+                {
+                    // a declared 'A[]' variable is stamped "A[]", a parameter type carries "A"
+                    auto element = [](std::string n) {
+                        if (n.size() >= 2 && n.compare(n.size() - 2, 2, "[]") == 0)
+                            n.erase(n.size() - 2);
+                        return n;
+                    };
+                    return element(actual.className) == element(expected.className)
+                               ? std::optional<int>(0)
+                               : std::nullopt;
+                }
             default:
                 return actual.type == expected.kind ? std::optional<int>(0) : std::nullopt;
         }
@@ -3463,6 +3478,9 @@ namespace bloch::runtime {
                 if (method) {
                     return callMethod(method, staticCls, receiver, args);
                 }
+                // a call that resolves to no method must not evaluate to nothing
+                throw BlochError(ErrorCategory::Runtime, member->line, member->column,
+                                 "no method '" + member->member + "' matches the arguments");
             }
         } else if (auto idx = dynamic_cast<MeasureExpression*>(e)) {
             Value q = eval(idx->qubit.get());
